@@ -33,6 +33,12 @@ def check_cfg(ctx, fx, cfg):
     if cfg != "bare":
         from props import c01 as _c01
         core.shared(ctx, "R13.10", _c01.check_payloads, ctx, fx, cfg, "R13.10")
+    # R13.11 (shared with C14) "the address resolves Ok" on every await of it, not only on the first: a handle whose own
+    # termination future is polled in place keeps a share taken *before* the poll on every path on which the poll completed
+    # (a clone of a completed Shared is dead: awaiting the address by reference and using the handle again would panic)
+    from props import c14 as _c14
+    n_inplace = _c14.check_inplace_polls(ctx, fx, "R13.11")
+    ctx.floor("R13.11", "in-place polls of a handle's own termination future (%s)" % cfg, n_inplace, 1)
     # R13.6 the stream the loop polls is the user's stream itself: every caller of the stream-loop constructor hands over
     # its own parameter unmodified (a wrapping adapter sits between the items and the loop and can stall or drop them)
     found = loops.find_loops(fx)
